@@ -247,6 +247,8 @@ type netSim struct {
 	onChainResubmitted map[util.Uint256]bool
 	conflictVictims    map[util.Uint256][]util.Uint256 // tx named by Conflicts attributes -> the naming transactions
 	namers             map[util.Uint256]bool
+	// poolFn, when set, is how a client transaction enters a node (server mode: Server.RelayTxn); default Blockchain.PoolTx
+	poolFn func(*vnode, *transaction.Transaction) error
 }
 
 func (s *netSim) now() time.Duration { return time.Since(s.start) }
@@ -493,7 +495,11 @@ func (s *netSim) submitTx(v *vnode, tx *transaction.Transaction) {
 			}
 		}
 	}
-	if pv := sim.Recover(func() { err = v.n.BC.PoolTx(tx) }); pv != nil {
+	pool := func() { err = v.n.BC.PoolTx(tx) }
+	if s.poolFn != nil {
+		pool = func() { err = s.poolFn(v, tx) }
+	}
+	if pv := sim.Recover(pool); pv != nil {
 		s.r.violate(pv)
 		return
 	}
